@@ -112,7 +112,14 @@ def run_case(case):
 				grid = [] if case.get('sizes') else [slice(a, b, c) for a, b, c in itertools.product(ends, ends, [None, 1, 2, 3, -1, -2, -3, n, -n])] if n <= 12 else \
 					[slice(rnd.choice(ends), rnd.choice(ends), rnd.choice([None, 1, 2, 3, -1, -2, -3, 7, -7])) for _ in range(60)]
 				masks = [np.array([rnd.random() < .5 for _ in range(n)])]
-				for idx in [slice(None), slice(1, None, 2), slice(None, None, -1), [n - 1, 0], [rnd.randrange(n) for _ in range(3)], [-1, 0, -n], np.array([0, n - 1, 0], dtype='i8')] + grid + masks:
+				lists = []
+				if n <= 6 and not case.get('sizes'):
+					for m_ in range(2, 5):
+						lists += [list(t_) for t_ in itertools.product(range(n), repeat=m_)]
+					if len(lists) > 700:
+						lists = rnd.sample(lists, 700)
+					lists += [[-n, -n, n - 1][:max(1, min(3, n))], [t_ - n for t_ in range(n)][::-1]]
+				for idx in lists + [slice(None), slice(1, None, 2), slice(None, None, -1), [n - 1, 0], [rnd.randrange(n) for _ in range(3)], [-1, 0, -n], np.array([0, n - 1, 0], dtype='i8')] + grid + masks:
 					if isinstance(idx, np.ndarray) and idx.dtype == bool:
 						sub = loaded[idx]
 						exp = [sg for sg, keep in zip(sigs, idx) if keep]
